@@ -236,11 +236,21 @@ def r3_own_options(ctx):
 
 
 def run(ctx):
-    return [r1_chains(ctx), r2_cookie(ctx), r3_own_options(ctx)]
+    # `otherwise the best match for the request's Accept-Language header / navigator.languages`: what the best match is, is the
+    # negotiation of C12 (find_locale -> find_match / filter_matches, evaluated over a closed universe by rules/c12.py)
+    from rules import c12
+    from rules.common import borrow
+    res = c12.r0_negotiation(ctx)
+    r4 = borrow(res[0], "C15.R4", "the header / navigator fallback is the negotiated best match",
+                "`otherwise the best match for the request's Accept-Language header (server) or navigator.languages (client)`: the resolution hands the "
+                "accepted languages to Locale::find_locale; a negotiation that prefers a later entry resolves another initial locale", floor=2)
+    if not res[1] and not r4.violations:
+        r4.viol("R4:undecided", "the negotiation cannot be interpreted on the current code (%s): not decided on this tree (fail closed)" % str(res[2] if len(res) > 2 else "")[:200])
+    return [r1_chains(ctx), r2_cookie(ctx), r3_own_options(ctx), r4]
 
 
 MANIFEST_ENTRY = {
-    "technique": "static analysis: priority-chain extraction (rules/chains.py) for the main resolution, the hydrate and ssr/csr variants and the sub-context memo, compared with the documented order; MIR path enumeration (py/mirsum.py) of resolve_locale_with_options: every path answers from the call's own options and consults no other state; canonical-form comparison of the once-then helpers and cookie acquisition",
+    "technique": "static analysis: priority-chain extraction (rules/chains.py) for the main resolution, the hydrate and ssr/csr variants and the sub-context memo, compared with the documented order; the negotiation clause of C12.R0 (the header fallback is find_locale's best match); MIR path enumeration (py/mirsum.py) of resolve_locale_with_options: every path answers from the call's own options and consults no other state; canonical-form comparison of the once-then helpers and cookie acquisition",
     "level_text": "Structural, one clause: the order in which the sources of the initial locale are consulted is read off the code for each configuration (ssr / hydrate / csr / sub-context first and later runs) and compared with the documentation. What a running reactive graph shows is not applicable to static analysis and is not claimed.",
     "level_note": "Trusted: Option combinator semantics, leptos-use cookie/header handling. Not decided: run-time reactive behaviour.",
 }
